@@ -313,10 +313,12 @@ pub fn expected(n: &Node, ctx: &NameCtx, out: &mut Vec<Exp>, sg: &mut Vec<(Strin
             // documented: exact, not affected by prefix or rename_all
             Tag::NameExact(t) => t.clone(),
         };
-        // tag value: variant name by rename_all / variant `name`, never prefixed
+        // tag value: variant `name`, else the variant identifier in the enum's OWN rename_all
+        // (exactly like a value(string) enum names its variants); never prefixed, and - being a
+        // value, not a name - not subject to a style inherited from a parent
         let value = match &v.name {
             Some(n) => n.clone(),
-            None => apply(style, &v.ident),
+            None => apply(n.rename_all, &v.ident),
         };
         let full = format!("{}{}", ctx.chain, tag_name);
         if *tag_sg {
